@@ -53,7 +53,18 @@
 //!     return; the model marks such entries of other connections "uncertain" and accepts both
 //!     capacity outcomes that depend on them;
 //!  R6 `ExceedsMaxBorrows` vs `None` is accepted both ways when the only blocked data lives in the
-//!     connection of a server that is gone.
+//!     connection of a server that is gone / belongs to a client that is gone and whose active
+//!     requests the server still holds;
+//!  R7 a `ResponseMut` that outlives its `ActiveRequest` keeps counting against the server-wide loan
+//!     cap (loans per request x active requests per client x clients): a loan refused with
+//!     `ExceedsMaxLoans` because of that cap is accepted;
+//!  R8 (lazy connections) a server that never refreshed its connections (receive / has_requests /
+//!     response send) since a client was created has no connection to it: requests of that client
+//!     are lost to this server when the client vanishes. The conformance tests about vanished clients
+//!     call `receive()` once before the client sends for exactly this reason.
+//!
+//! Known findings (hazards): see the `F_*` constants; every one has a fixed scenario in
+//! `policy::probe_*` and a line in /verif/known_findings.jsonl.
 
 use std::collections::{BTreeMap, BTreeSet, VecDeque};
 
